@@ -119,7 +119,9 @@ def complete_trip_phase(
                     num_passengers=updated_num_passengers,
                     departure_times=updated_departure_times,
                 )
-                updated_vehicle = vehicle.modify_vehicle_state(updated_vehicle_state)
+                # pick_up_trip credited the fare to the vehicle held in sim2: continue from that vehicle
+                picked_up_vehicle = sim2.vehicles.get(vehicle.id, vehicle)
+                updated_vehicle = picked_up_vehicle.modify_vehicle_state(updated_vehicle_state)
                 result = modify_vehicle(sim2, updated_vehicle)
                 return result
 
